@@ -1,5 +1,6 @@
 import RV.C04.Model
 import RV.C04.Spec
+import RV.C04.Safe
 import RV.Base.Proto
 /-
   C04 driver.  One request per line, one answer per line.
@@ -8,6 +9,7 @@ import RV.Base.Proto
          U = 1: the query's default graph is the set-union of all graphs (Dataset(default_union=True))
     spec N <syntax-tree query>     -> Spec.evalQuery (Spec.translate q)     rows over N variables
     model N <rdflib algebra query> -> Model.evalQuery q
+    safe <rdflib algebra query>    -> safe=0|1 frag=0|1   (Query.safe, Query.inFragment of RV/C04/Safe.lean)
     tr <syntax-tree query>         -> ok | bad-op   (diagnostic: does it parse)
 
   terms      i<n> IRI   b<n> blank node   n<z> integer   s<cp.cp…> string (code points)   t0|t1 boolean
@@ -290,6 +292,10 @@ def step (D : Dataset) : List String → Dataset × String
     match nn.toNat?, (parseSX (tokenize (" ".intercalate rest))).bind query? with
     | some n, some q => (D, showResult (Model.evalQuery (n := n) D q))
     | _, _ => (D, "bad-op")
+  | "safe" :: rest =>
+    match (parseSX (tokenize (" ".intercalate rest))).bind query? with
+    | some q => (D, s!"safe={if q.safe then 1 else 0} frag={if q.inFragment then 1 else 0}")
+    | none => (D, "bad-op")
   | "tr" :: rest =>
     match (parseSX (tokenize (" ".intercalate rest))).bind squery? with
     | some _ => (D, "ok")
